@@ -100,6 +100,7 @@ static int incnum;
 
 static function_context_t function_context_stack[MAX_FUNCTION_DEPTH];
 static int last_function_context;
+static int refused_function_contexts; /* push_function_context() calls refused for depth; their pops must not pop */
 function_context_t *current_function_context = 0;
 
 /*
@@ -1219,6 +1220,7 @@ void push_function_context () {
   if (last_function_context == MAX_FUNCTION_DEPTH - 1)
     {
       yyerror ("Function pointers nested too deep");
+      refused_function_contexts++;
       return;
     }
   fc = &function_context_stack[++last_function_context];
@@ -1236,6 +1238,11 @@ void push_function_context () {
 }
 
 void pop_function_context () {
+  if (refused_function_contexts)
+    {
+      refused_function_contexts--; /* matches a push that was refused */
+      return;
+    }
   current_function_context = current_function_context->parent;
   last_function_context--;
 }
@@ -2564,6 +2571,7 @@ void start_new_file (int fd, const char* pre_text) {
   yyin_desc = fd; /* lexer input file descriptor */
   lex_fatal = 0;
   last_function_context = -1;
+  refused_function_contexts = 0;
   current_function_context = 0;
   cur_lbuf = &head_lbuf;
   cur_lbuf->outptr = cur_lbuf->buf_end = outptr = cur_lbuf->buf + (DEFMAX >> 1);
